@@ -100,6 +100,14 @@ class Ctx:
                     shutil.copyfile(src, dst)
                     n += 1
         self.n_snap = n
+        # the tree's own generated headers in the top directory would shadow the overlay for top-level units (a quoted
+        # #include searches the including file's directory first): move them aside; the overlay is generated from these copies
+        self.orig = os.path.join(self.snap, ".orig")
+        os.makedirs(self.orig, exist_ok=True)
+        for f in ("config.h", "longlong.h", "mpir.h", "gmp.h", "gmp-mparam.h", "gmp-impl.h"):
+            fp = os.path.join(self.snap, f)
+            if os.path.lexists(fp):
+                shutil.move(fp, os.path.join(self.orig, f))
         # idiom rewrite (an encoding step like the inline-asm translation): "(char *) p - (char *) NULL" (address of p as an
         # integer, used only for "% sizeof (mp_limb_t)" alignment tests) is standard-level UB that makes CBMC give up on
         # everything after it; it is rewritten to the equivalent integer cast in the snapshot copy (native replays use the same copy)
@@ -132,7 +140,7 @@ class Ctx:
             d = os.path.join(self.scratch, "ov_" + re.sub(r"[^A-Za-z0-9]", "_", variant))
             os.makedirs(d, exist_ok=True)
             native = "native" in flags
-            cfg = open(os.path.join(self.snap, "config.h")).read()
+            cfg = open(os.path.join(self.orig, "config.h")).read()
             if not native:
                 cfg = re.sub(r"#define HAVE_ATTRIBUTE_MODE 1", "/* verif: HAVE_ATTRIBUTE_MODE dropped (cbmc ignores mode(DI)) */", cfg)
             if "assert" in flags:
@@ -172,7 +180,7 @@ class Ctx:
                 else:
                     mpsrc = os.path.join(self.snap, val)
             shutil.copyfile(mpsrc, os.path.join(d, "gmp-mparam.h"))
-            shutil.copyfile(os.path.join(self.snap, "gmp-impl.h"), os.path.join(d, "gmp-impl.h"))
+            shutil.copyfile(os.path.join(self.orig, "gmp-impl.h"), os.path.join(d, "gmp-impl.h"))
             self.overlays[variant] = d
             return d
 
